@@ -35,4 +35,14 @@ def findR {α : Type} (set : List Byte) (p : List Byte) (knull : Res α) (kfound
   | .oob => .oob
   | _ => .nofuel
 
+/-- `if(String::compare(p, lit, |lit|) == 0) … else …` (`litMatch`, Model.lean: stops at the first difference, in
+    particular at a NUL of the text) -/
+def litR {α : Type} (lit : List Byte) (p : List Byte) (kmatch kmis : Res α) : Res α :=
+  match litMatch lit p with
+  | .ok (some _) => kmatch
+  | .ok none => kmis
+  | .fail l q => .fail l q
+  | .oob => .oob
+  | .nofuel => .nofuel
+
 end Nstd.Json.Cxx
